@@ -89,6 +89,20 @@ def escaping_inputs(rng, n):
         for x, _ in t.walk():
             if rng.random() < 0.25 and x.tag not in ("annotation", "annotation-xml"):
                 x.attrs["data-esc%d" % rng.randint(0, 3)] = rng.choice(SPECIAL_TEXTS)
+            if rng.random() < 0.08 and x.tag not in ("annotation", "annotation-xml"):
+                # attributes in the predeclared xml namespace next to their unprefixed namesakes, MathCAT's own bookkeeping attributes
+                k = rng.random()
+                if k < 0.4:
+                    x.attrs["xml:lang"] = rng.choice(["en", "fr", "de-CH"])
+                    if rng.random() < 0.6:
+                        x.attrs["lang"] = rng.choice(["fr", "sv", "en"])
+                elif k < 0.6:
+                    x.attrs["xml:space"] = "preserve"
+                    x.attrs["space"] = "1em"
+                elif k < 0.8:
+                    x.attrs["data-changed"] = rng.choice(["added", "empty_content", "was-mspace", "from_mfenced"])
+                else:
+                    x.attrs["data-id-added"] = "true"
         out.append(t.xml())
     return out
 
